@@ -50,6 +50,7 @@ instance : Div CF := ⟨fun a b =>
 end CF
 
 instance : Zero Float := ⟨0.0⟩
+instance : NatCast Float := ⟨Float.ofNat⟩
 instance : One Float := ⟨1.0⟩
 
 instance : RealOps Float where
